@@ -22,7 +22,7 @@ fn default_opt() -> Opt {
     Opt { opaque: true, wildcard: false, from_impls: false, no_std: false, custom: vec![], annotations: vec![DEFAULT_ANN.into()] }
 }
 
-const FIXED: [(&str, &str); 39] = [
+const FIXED: [(&str, &str); 41] = [
     ("recursion-direct", "Rec ::= SEQUENCE { next Rec OPTIONAL, v INTEGER }"),
     ("recursion-choice", "Tree ::= CHOICE { leaf INTEGER, node SEQUENCE { l Tree, r Tree } }"),
     ("recursion-mutual", "Ra ::= SEQUENCE { b Rb OPTIONAL }\nRb ::= SEQUENCE { a Ra, n NULL }"),
@@ -70,6 +70,11 @@ const FIXED: [(&str, &str); 39] = [
     ("extension-groups", "Eg ::= SEQUENCE { a INTEGER, ..., [[ 2: b BOOLEAN, c NULL OPTIONAL ]], d UTF8String OPTIONAL }"),
     ("strings", "S1 ::= IA5String (SIZE (1..8))\nS2 ::= PrintableString (FROM (\"A\"..\"Z\"))\nS3 ::= NumericString\nS4 ::= BMPString\nS5 ::= UniversalString\nS6 ::= VisibleString\nS7 ::= TeletexString\nS8 ::= GeneralString\nS9 ::= GraphicString"),
     ("open-types", "Ot ::= SEQUENCE { a [0] ANY, b [1] EXTERNAL OPTIONAL, c [2] EMBEDDED PDV OPTIONAL }"),
+    // object identifier values written with the well-known names of X.660 (every root, every second-level name), in
+    // name form and name-and-number form, as values of the built-in type and of a named one
+    ("oid-well-known-names", "Syntax-Id ::= OBJECT IDENTIFIER\no1 OBJECT IDENTIFIER ::= { iso standard 8571 }\no2 OBJECT IDENTIFIER ::= { iso member-body 840 }\no3 OBJECT IDENTIFIER ::= { iso identified-organization 6 }\no4 OBJECT IDENTIFIER ::= { iso registration-authority 1 }\no5 OBJECT IDENTIFIER ::= { itu-t recommendation 24 }\no6 OBJECT IDENTIFIER ::= { itu-t question 1 }\no7 OBJECT IDENTIFIER ::= { itu-t administration 2 }\no8 OBJECT IDENTIFIER ::= { itu-t network-operator 3 }\no9 OBJECT IDENTIFIER ::= { itu-t identified-organization 4 }\no10 OBJECT IDENTIFIER ::= { joint-iso-itu-t 5 }\no11 Syntax-Id ::= { iso standard 8571 abstract-syntax(2) }\no12 OBJECT IDENTIFIER ::= { 1 standard 8571 }\no13 OBJECT IDENTIFIER ::= { iso(1) standard(0) 8571 }\no14 OBJECT IDENTIFIER ::= { 0 recommendation 3 }"),
+    // the empty named-bit list, as value and as DEFAULT, of a named and of an inline BIT STRING
+    ("bit-string-named-empty-list", "Caps ::= BIT STRING { read(0), write(1), exec(5) }\nnone Caps ::= {}\nsome Caps ::= { write }\nMsg ::= SEQUENCE { unused [0] Caps DEFAULT {}, inline [1] BIT STRING { a(0), b(3) } DEFAULT {}, used [2] Caps DEFAULT { read, exec } }"),
 ];
 
 /// Rust 2021 strict and reserved keywords (the harness's own list, not the compiler's)
@@ -288,9 +293,6 @@ fn classify(msg: &str, case: &Case) -> String {
     }
     if m.contains("FromStr` is not satisfied") && m.contains(". parse :: <") {
         return "C01_time_value_of_an_alias_parses_into_the_newtype".into();
-    }
-    if m.contains("Oid :: new (") && (m.contains("E0425") || m.contains("E0423")) {
-        return "C01_struct_value_read_as_object_identifier".into();
     }
     if m.contains("E0308") && m.contains("alloc :: vec ! [") {
         return "C01_list_value_of_a_type_with_hoisted_element".into();
